@@ -1,6 +1,6 @@
 (* C15 — slow consumers are dropped after the grace period, recovered ones are not (model: 1 s ticks). *)
 From Coq Require Import ZArith List Bool Arith.
-From HP Require Import Bytes Sha1 Wire Broker BrokerSpec BrokerInv BrokerStep BrokerTrace BrokerLocal BrokerTimer BrokerProps BrokerProps2.
+From HP Require Import Bytes Sha1 Wire Broker BrokerSpec BrokerInv BrokerStep BrokerTrace BrokerLocal BrokerTimer BrokerProps BrokerProps2 BrokerDeadline.
 Import ListNotations.
 
 Section C15.
@@ -45,6 +45,29 @@ Proof. exact tick1_effect. Qed.
 Theorem C15_others_unaffected : forall h q, timer (conns (run h) q) = None ->
   untouched (conns (run h) q) (conns (step (run h) Tick) q).
 Proof. exact (tick_local_run bname store async_store). Qed.
+(* ---- over whole histories ---- *)
+(* the broker's list of connections holds every made connection exactly once, in every reachable state *)
+Theorem C15_ids_ok : forall h, IdsOK (run h).
+Proof. exact (run_IdsOK bname store async_store). Qed.
+
+(* for ANY list of events without a new stall / drain / creation of q, the seconds left on q's deadline are what they
+   were minus the number of clock ticks, as long as that stays positive: the deadline does not fire earlier *)
+Theorem C15_deadline_counts_ticks : forall q es s n,
+  Good store async_store s -> IdsOK s -> In q (ids s) -> timer (conns s q) = Some n ->
+  forallb (leaves_deadline q) es = true -> (nticks es < n)%nat ->
+  timer (conns (fold_left step es s) q) = Some (n - nticks es)%nat.
+Proof. exact (deadline_counts_ticks bname store async_store). Qed.
+
+(* the whole episode from any reachable state: a stall starts a 60 s count; after k < 60 ticks of arbitrary other
+   activity 60 - k s are left; the 60th tick sends OP_ERROR and closes the connection *)
+Theorem C15_stall_then_exactly_grace : forall h q es,
+  let s := run h in
+  made (conns s q) = true -> lost (conns s q) = false -> wpaused (conns s q) = false ->
+  forallb (leaves_deadline q) es = true ->
+  let s1 := fold_left step es (step s (PauseW q)) in
+  ((nticks es < grace)%nat -> timer (conns s1 q) = Some (grace - nticks es)%nat) /\
+  (nticks es = (grace - 1)%nat -> closing (conns (step s1 Tick) q) = true /\ timer (conns (step s1 Tick) q) = None).
+Proof. exact (stall_then_exactly_grace bname store async_store). Qed.
 End C15.
 
 Print Assumptions C15_timer_frame.
@@ -53,3 +76,6 @@ Print Assumptions C15_drain_cancels.
 Print Assumptions C15_grace.
 Print Assumptions C15_one_second.
 Print Assumptions C15_others_unaffected.
+Print Assumptions C15_ids_ok.
+Print Assumptions C15_deadline_counts_ticks.
+Print Assumptions C15_stall_then_exactly_grace.
